@@ -14,6 +14,7 @@ Inductive rawev :=
 | RRef (p ridx ep : int)
 | RAns (p ridx ep : int)
 | RRoam (p ep : int)
+| RReplayInit (p ep : int)
 | RShift (p : int)
 | RExp (p : int)
 | RDown
@@ -51,6 +52,7 @@ Definition dec_ev (r : rawev) : event :=
   | RRef p r e => RefHs (ni p) (ni r) (ni e)
   | RAns p r e => AnswerHs (ni p) (ni r) (ni e)
   | RRoam p e => Roam (ni p) (ni e)
+  | RReplayInit p e => ReplayInit (ni p) (ni e)
   | RShift p => ShiftHs (ni p)
   | RExp p => Expire (ni p)
   | RDown => Down
